@@ -1,10 +1,10 @@
 package proxyrig
 
 import (
-	"github.com/jackc/pgx/v5/pgproto3"
 	"encoding/binary"
 	"encoding/hex"
 	"fmt"
+	"github.com/jackc/pgx/v5/pgproto3"
 	"strconv"
 	"strings"
 
@@ -186,19 +186,20 @@ type Written struct {
 
 // Step is one client statement (possibly several protocol round trips), sent identically through Acra and to the reference database.
 type Step struct {
-	Kind     string // insert | update | delete | select
-	Table    string
-	SQL      string
-	Proto    string                       // simple | extended | extended-describe-stmt | extended-reuse
-	Groups   [][]pgproto3.FrontendMessage // each group ends with Query or Sync; the runner waits for ReadyForQuery after each
+	Kind   string // insert | update | delete | select
+	Table  string
+	SQL    string
+	Proto  string                       // simple | extended | extended-describe-stmt | extended-reuse
+	Groups [][]pgproto3.FrontendMessage // each group ends with Query or Sync; the runner waits for ReadyForQuery after each
 	// RefGroups, when set, is what the reference database gets instead of Groups: same statement shape, but the values the
 	// application encrypted itself (AcraStruct / AcraBlock made by AcraWriter / AcraTranslator) are spelled as their plaintexts.
-	RefGroups [][]pgproto3.FrontendMessage
-	Writes   []Written
-	ParamFmt string // none | text | binary | mixed
-	ResFmt   string // text | binary | mixed
-	Detail   string // names, format codes
-	Tag      string // generator-side classification of what is special about the statement (goes into violation signatures)
-	ParamDesc []string // bound values written out (for replay files)
-	ResultCols []string // table column behind each result field, in order (for replies that carry no RowDescription)
+	RefGroups     [][]pgproto3.FrontendMessage
+	Writes        []Written
+	ParamFmt      string   // none | text | binary | mixed
+	ResFmt        string   // text | binary | mixed
+	Detail        string   // names, format codes
+	Tag           string   // generator-side classification of what is special about the statement (goes into violation signatures)
+	ParamDesc     []string // bound values written out (for replay files)
+	FormatPattern string   // set when the parameter format codes were forced into a named pattern
+	ResultCols    []string // table column behind each result field, in order (for replies that carry no RowDescription)
 }
